@@ -186,7 +186,32 @@ func completeMsgDesc(r *rand.Rand, item *Node) *MsgDesc {
 	return m
 }
 
-func suiteC01(c *Ctx) []Suite { return append(suiteC01base(c), largeSuites()...) }
+func suiteC01(c *Ctx) []Suite {
+	shared := Suite{Name: "roundtrip/shared-sub-items", Gen: func(c *Ctx) []Case {
+		// a tree in which one item object occurs twice encodes like any other tree, and what it
+		// encodes to decodes back to the same tree
+		out := sharedSubItems(c, c.N(200))
+		for i := range out {
+			if out[i].Oracle != "" || !strings.Contains(out[i].Impl, "bytes=") {
+				continue
+			}
+			f := strings.Fields(out[i].Impl)
+			text, ok := unhx(strings.TrimPrefix(f[0], "bytes="))
+			if !ok || len(text) == 0 {
+				out[i].Oracle = "a variable-free tree with a shared sub-item has no encoding: " + out[i].Impl
+				continue
+			}
+			msg, good := hsms.Parse(frame(7, 1, 1, 1, []byte{0, 0, 0, 1}, text))
+			if dm, isData := msg.(*ast.DataMessage); !good || !isData {
+				out[i].Oracle = "the encoding of a tree with a shared sub-item is not decoded"
+			} else if back := dm.ToBytes(); len(back) < 14 || !bytes.Equal(back[14:], text) {
+				out[i].Oracle = "a tree with a shared sub-item does not survive encode/decode/encode"
+			}
+		}
+		return out
+	}}
+	return append(append(suiteC01base(c), shared), largeSuites()...)
+}
 
 func suiteC01base(c *Ctx) []Suite {
 	gen := func(name string, n int, via func(r *rand.Rand, m *MsgDesc) (string, *ast.DataMessage)) Suite {
@@ -413,6 +438,27 @@ func boundaryCase(r *rand.Rand, n *Node, payload int) Case {
 
 func suiteC02(c *Ctx) []Suite {
 	return []Suite{
+		{Name: "wire/items-from-the-decoder", Gen: func(c *Ctx) []Case {
+			// an item that came out of hsms.Parse is an item like any other: whatever spelling the
+			// sender used (non-minimal length bytes, any non-zero byte for true), ToBytes gives the
+			// one standard encoding - compared byte for byte with the model's decoder + encoder
+			var out []Case
+			for i := 0; i < c.N(600); i++ {
+				item := genItem(c.R, GenOpt{MaxDepth: 3, MaxSlots: 6})
+				if i%3 == 0 {
+					// booleans only, most of them true, at every depth
+					item = &Node{Kind: "L", Slots: []Slot{{Child: &Node{Kind: "BO", Slots: []Slot{{B: true}, {B: false}, {B: true}, {B: true}}}},
+						{Child: &Node{Kind: "L", Slots: []Slot{{Child: &Node{Kind: "BO", Slots: []Slot{{B: true}}}}}}}}}
+				}
+				if !item.Closed() {
+					continue
+				}
+				b := frame(c.R.Intn(65536), 1+c.R.Intn(127), c.R.Intn(256), c.R.Intn(2), []byte{1, 2, 3, 4}, encodeVariant(item, c.R))
+				out = append(out, Case{Op: "dec " + hx(b), Decisive: true, Nontrivial: true, Tags: []string{"re-encoded:" + kindTag(item)}}.fields("bytes"))
+			}
+			return out
+		}},
+		{Name: "wire/shared-sub-items", Gen: func(c *Ctx) []Case { return sharedSubItems(c, c.N(300)) }},
 		{Name: "wire/items", Gen: func(c *Ctx) []Case {
 			var out []Case
 			for i := 0; i < c.N(2000); i++ {
@@ -1464,4 +1510,44 @@ func suiteC14(c *Ctx) []Suite {
 			return out
 		}},
 	}
+}
+
+// sharedSubItems: trees in which ONE item object occurs at several places (a caller may build a
+// sub-list once and put it into a list twice, or fill two variables with the same item): items
+// are immutable values, so the tree encodes, prints and lists exactly like the tree built from
+// separate equal objects - which is what the model computes for the operation line.
+func sharedSubItems(c *Ctx, n int) []Case {
+	var out []Case
+	for i := 0; i < n; i++ {
+		sub := genItem(c.R, GenOpt{MaxDepth: 2, MaxSlots: 4})
+		if i%2 == 0 {
+			sub = &Node{Kind: "L", Slots: []Slot{{Child: genItem(c.R, GenOpt{MaxDepth: 2, MaxSlots: 3})}, {Child: &Node{Kind: "A", Str: []byte("st")}}}}
+		}
+		other := genItem(c.R, GenOpt{MaxDepth: 1, MaxSlots: 3})
+		if !sub.Closed() || !other.Closed() {
+			continue
+		}
+		var tree *Node
+		var build func(s, o ast.ItemNode) ast.ItemNode
+		switch i % 3 {
+		case 0: // the same object twice in one list
+			tree = &Node{Kind: "L", Slots: []Slot{{Child: sub}, {Child: other}, {Child: sub}}}
+			build = func(s, o ast.ItemNode) ast.ItemNode { return ast.NewListNode(s, o, s) }
+		case 1: // at different depths
+			tree = &Node{Kind: "L", Slots: []Slot{{Child: sub}, {Child: &Node{Kind: "L", Slots: []Slot{{Child: other}, {Child: sub}}}}}}
+			build = func(s, o ast.ItemNode) ast.ItemNode { return ast.NewListNode(s, ast.NewListNode(o, s)) }
+		default: // two variables filled with the same item
+			tree = &Node{Kind: "L", Slots: []Slot{{Child: sub}, {Child: other}, {Child: sub}}}
+			build = func(s, o ast.ItemNode) ast.ItemNode {
+				return ast.NewListNode("p", o, "q").FillVariables(map[string]interface{}{"p": s, "q": s})
+			}
+		}
+		impl := "PANIC"
+		safely(func() {
+			s := sub.Build()
+			impl = showItem(build(s, other.Build()))
+		})
+		out = append(out, Case{Op: "item " + tree.Proto(), Impl: impl, Decisive: true, Nontrivial: true, Tags: []string{fmt.Sprintf("shared:%d", i%3)}}.fields("bytes str vars size"))
+	}
+	return out
 }
